@@ -3,9 +3,17 @@
     Vocabulary: [wf] (lib/LGraph.v); [std_consistent g] = standard_order is order_G - order_H on every edge
     (proved for every output of its_construct: C01_union); [is_h g u] = the ITS node u has top-level element "H";
     [rc_attr a] = the labels get_rc copies (element, charge, typesGH, atom_map); [dist_le g S k n] = some walk of
-    at most k bonds leads from a node of S to n; [geq] = same node labels and same edge map. *)
+    at most k bonds leads from a node of S to n; [geq] = same node labels and same edge map.
+    Only theorem 1 needs [std_consistent]; 1' is its counterpart for ITSGraph(ignore_aromaticity=True).
+    Theorems 7-12: get_rc with options ([get_rc_x K disconnected keep_mtg], model/C02_Model.v) over ITS graphs whose node
+    labels may be absent and whose bonds may carry is_mtg: [include_x m x] = standard_order != 0 or (m and is_mtg),
+    [out_edge x] = (order, standard_order, is_mtg = flag or False), [out_edge_rec x] = the same without an is_mtg key,
+    [sel_attr K a] = the labels of a selected by element_key, [sel_attr_hh K a] = the same plus typesGH (or its fallback),
+    [inc_end m g n] / [hh_end g n] = n lies on an included / on an H-H bond, [charge_changed a] = the two charges in typesGH differ.
+    Theorems 13-17: the RadiusExpand helpers. *)
 From Coq Require Import List NArith ZArith Bool.
-From SK Require Import lib.LGraph lib.C01_GraphLemmas model.C01_Model model.C02_Model proof.C02_Proof.
+From SK Require Import lib.LGraph lib.C01_GraphLemmas model.C01_Model model.C02_Model proof.C02_Proof proof.C02_Opts proof.C02_Ctx.
+Import ListNotations.
 Local Open Scope Z_scope.
 
 (** 1. a bond is in the centre iff its two orders differ or both atoms are hydrogens; it keeps its labels *)
@@ -52,3 +60,138 @@ Theorem C02_ctx_chain : forall g : its, wf g -> forall k k', (k <= k')%nat ->
   (forall u v e, adj (extract_k g k') u v = Some e -> adj g u v = Some e).
 Proof. exact ctx_chain. Qed.
 Print Assumptions C02_ctx_chain.
+
+(** 1'. ITSGraph(ignore_aromaticity=True) computes standard_order with |difference| < 1 zeroed ([ia_consistent], half-units: < 2);
+        on such ITS graphs a bond is in the centre iff its orders differ by at least 1, or both atoms are hydrogens *)
+Theorem C02_ia_construct : forall bal G H, ia_consistent (its_construct_o true bal G H).
+Proof. exact its_construct_ia_consistent. Qed.
+Print Assumptions C02_ia_construct.
+
+Theorem C02_rc_edges_ia : forall g : its, wf g -> ia_consistent g -> forall u v e,
+  adj (get_rc g) u v = Some e <->
+  adj g u v = Some e /\ (2 <= Z.abs (e_G e - e_H e) \/ (is_h g u = true /\ is_h g v = true)).
+Proof. exact rc_edges_ia. Qed.
+Print Assumptions C02_rc_edges_ia.
+
+(** there the property's clause "order differs => in the centre" fails (by design of the option): 1.5 -> 1.0 *)
+Theorem C02_rc_edges_ia_refuted : exists (g : its) (u v : N) (e : iedge),
+  wf g /\ ia_consistent g /\ adj g u v = Some e /\ e_G e <> e_H e /\ adj (get_rc g) u v = None /\ gnodes (get_rc g) = [].
+Proof. exact rc_edges_ia_refuted. Qed.
+Print Assumptions C02_rc_edges_ia_refuted.
+
+(** 7. get_rc with options: the bonds of the centre.  A bond of the ITS is kept with its order, standard_order and
+       is_mtg (default False) iff it is included (changed, or keep_mtg and flagged) or an H-H bond; with disconnected=True
+       every other ITS bond between two centre atoms is kept as well, without an is_mtg key *)
+Theorem C02_rcx_edges : forall K d m (g : xits), wf g -> forall u v y,
+  adj (get_rc_x K d m g) u v = Some y <->
+  exists x, adj g u v = Some x /\
+    (((include_x m x = true \/ is_hh_x g u v = true) /\ y = out_edge x) \/
+     (include_x m x = false /\ is_hh_x g u v = false /\ d = true /\
+      In u (node_ids (get_rc_x K d m g)) /\ In v (node_ids (get_rc_x K d m g)) /\ y = out_edge_rec x)).
+Proof. exact rcx_edges. Qed.
+Print Assumptions C02_rcx_edges.
+
+(** 8. get_rc with options: the atoms of the centre and their labels (element_key).  Atoms on an included bond carry the
+       selected labels; atoms reached only through an H-H bond additionally always carry typesGH (fallback if absent);
+       with disconnected=True the atoms whose charge differs in typesGH are added with the selected labels *)
+Theorem C02_rcx_nodes : forall K d m (g : xits), wf g -> forall n b,
+  label (get_rc_x K d m g) n = Some b <->
+  exists a, label g n = Some a /\
+    ((inc_end m g n /\ b = sel_attr K a) \/
+     (~ inc_end m g n /\ hh_end g n /\ b = sel_attr_hh K a) \/
+     (~ inc_end m g n /\ ~ hh_end g n /\ d = true /\ charge_changed a = true /\ b = sel_attr K a)).
+Proof. exact rcx_nodes. Qed.
+Print Assumptions C02_rcx_nodes.
+
+(** 9. keep_mtg=True adds exactly the flagged bonds: centre bonds = changed or is_mtg or H-H bonds *)
+Theorem C02_rcx_keep_mtg : forall K (g : xits), wf g -> forall u v y,
+  adj (get_rc_x K false true g) u v = Some y <->
+  exists x, adj g u v = Some x /\ y = out_edge x /\
+            (changed (fst x) = true \/ mtg_flag x = true \/ is_hh_x g u v = true).
+Proof. exact rcx_keep_mtg. Qed.
+Print Assumptions C02_rcx_keep_mtg.
+
+(** 10. disconnected=True adds exactly the atoms whose charge differs in typesGH, and the centre becomes the induced
+        subgraph of the ITS on its atoms (order and standard_order kept) *)
+Theorem C02_rcx_disconnected : forall K m (g : xits), wf g ->
+  let R := get_rc_x K true m g in
+  (forall n, In n (node_ids R) <->
+             In n (node_ids (get_rc_x K false m g)) \/ (exists a, label g n = Some a /\ charge_changed a = true)) /\
+  (forall u v e, (exists y, adj R u v = Some y /\ fst y = e) <->
+                 (exists x, adj g u v = Some x /\ fst x = e) /\ In u (node_ids R) /\ In v (node_ids R)).
+Proof. exact rcx_disconnected. Qed.
+Print Assumptions C02_rcx_disconnected.
+
+(** 11. the default centre is a subgraph of every variant *)
+Theorem C02_rcx_default_sub : forall K d m (g : xits), wf g ->
+  (forall n, In n (node_ids (get_rc_x K false false g)) -> In n (node_ids (get_rc_x K d m g))) /\
+  (forall u v y, adj (get_rc_x K false false g) u v = Some y -> adj (get_rc_x K d m g) u v = Some y).
+Proof. exact rcx_default_sub. Qed.
+Print Assumptions C02_rcx_default_sub.
+
+(** 12. with the default element_key, disconnected=False and keep_mtg=False (or no bond flagged) get_rc_x is get_rc
+        (theorems 1-4) once the is_mtg attributes are forgotten; on an ITS without is_mtg attributes it is get_rc with
+        is_mtg = False on every bond.  No well-formedness hypothesis: the two programs run in lockstep. *)
+Theorem C02_rcx_default : forall (g : fits) (m : bool),
+  (m = false \/ forall u v x, In (u, v, x) (gedges g) -> mtg_flag x = false) ->
+  gmap (fun a : xnode => a) (@fst iedge (option bool)) (get_rc_x K_default false m (emb_f g)) =
+  gmap xn_of (fun e : iedge => e) (get_rc (strip_f g)).
+Proof. exact rcx_default_is_get_rc. Qed.
+Print Assumptions C02_rcx_default.
+
+Theorem C02_rcx_default_emb : forall g : its,
+  get_rc_x K_default false false (emb g) = gmap xn_of (fun e : iedge => (e, Some false)) (get_rc g).
+Proof. exact rcx_default_emb. Qed.
+Print Assumptions C02_rcx_default_emb.
+
+(** 13. find_unequal_order_edges reports a subset of the centre atoms; exactly the centre atoms when standard_order is
+        computed by ITSGraph (either way) and no H-H bond is unchanged; the inclusion can be strict *)
+Theorem C02_unequal_sub_centre : forall g : its, wf g -> forall n, In n (unequal_nodes g) -> In n (node_ids (get_rc g)).
+Proof. exact unequal_sub_rc. Qed.
+Print Assumptions C02_unequal_sub_centre.
+
+Theorem C02_unequal_is_centre : forall g : its, wf g -> (std_consistent g \/ ia_consistent g) ->
+  (forall u v x, In (u, v, x) (gedges g) -> is_hh g u v = true -> e_std x <> 0) ->
+  forall n, In n (unequal_nodes g) <-> In n (node_ids (get_rc g)).
+Proof. exact unequal_eq_rc. Qed.
+Print Assumptions C02_unequal_is_centre.
+
+Theorem C02_unequal_strict : exists (g : its) (n : N),
+  wf g /\ std_consistent g /\ In n (node_ids (get_rc g)) /\ ~ In n (unequal_nodes g).
+Proof. exact unequal_strict. Qed.
+Print Assumptions C02_unequal_strict.
+
+(** 14. remove_normal_edges(., "standard_order") keeps every atom and exactly the bonds with standard_order != 0,
+        all of which are centre bonds *)
+Theorem C02_remove_normal : forall g : its, wf g ->
+  gnodes (remove_normal g) = gnodes g /\
+  (forall u v e, adj (remove_normal g) u v = Some e <-> adj g u v = Some e /\ e_std e <> 0) /\
+  (forall u v e, adj (remove_normal g) u v = Some e -> adj (get_rc g) u v = Some e).
+Proof. exact remove_normal_spec. Qed.
+Print Assumptions C02_remove_normal.
+
+(** 15. extract_k option handling: n_knn >= 0 is theorem 5/6's extract_k; n_knn = -1 is the context whose radius is the
+        number of atoms of longest_radius_extension *)
+Theorem C02_extract_k_nonneg : forall (g : its) k, 0 <= k -> extract_k_z g k = extract_k g (Z.to_nat k).
+Proof. exact extract_k_z_nonneg. Qed.
+Print Assumptions C02_extract_k_nonneg.
+
+Theorem C02_extract_k_minus1 : forall g : its, wf g ->
+  let rcn := node_ids (get_rc g) in
+  let r := length (lre g rcn) in
+  extract_k_z g (-1) = induced_sub g (knn g rcn r) /\
+  (forall n, In n (node_ids (extract_k_z g (-1))) <-> dist_le g rcn r n).
+Proof. exact extract_k_z_minus1. Qed.
+Print Assumptions C02_extract_k_minus1.
+
+(** 16. context extraction over a list: same length, element i is (ITS_i, extract_k(ITS_i, n_knn)) and nothing else *)
+Theorem C02_context_list : forall (gs : list its) k,
+  length (context_list gs k) = length gs /\
+  forall i, nth_error (context_list gs k) i = option_map (fun g => (g, extract_k_z g k)) (nth_error gs i).
+Proof. exact context_list_spec. Qed.
+Print Assumptions C02_context_list.
+
+(** 17. the ITSGraph variant used by the correspondence is C01's construction for the default options *)
+Theorem C02_construct_default : forall G H, its_construct_o false false G H = its_construct G H.
+Proof. exact its_construct_o_default. Qed.
+Print Assumptions C02_construct_default.
